@@ -174,6 +174,7 @@ func runTaskCase(a args, tcase taskCase, idx int) {
 		schedErr = sch.Schedule(g)
 		st, _ := g.Node("s")
 		stageStatus = st.ReadStatus()
+		t = st.Task // the stage runs (and keeps) its own copy of the task; results live there
 		err = schedErr
 		lockedFinish(sch.Finish)
 	} else {
